@@ -22,4 +22,32 @@ theorem jumpDiffusivity_add (s₁ s₂ a dims n t : ℚ) :
   unfold Gen.jumpDiffusivity
   ring
 
+
+/-! ### rates -/
+
+theorem rateMean_eq (m sd nF T P : ℚ) : Gen.rateMean m sd nF T P = m / (nF * (T / P)) := by
+  unfold Gen.rateMean
+  ring
+
+theorem rateStd_eq (m sd nF T P : ℚ) : Gen.rateStd m sd nF T P = sd / (nF * (T / P)) := by
+  unfold Gen.rateStd
+  ring
+
+/-- rate × number of diffusing atoms × total time = sum of the per-part counts (`m` = their mean over `P` parts):
+the rates are a consistent aggregation of the parts' counters -/
+theorem rateMean_times_time (total nF T P sd : ℚ) (hn : nF ≠ 0) (hT : T ≠ 0) (hP : P ≠ 0) :
+    Gen.rateMean (total / P) sd nF T P * (nF * T) = total := by
+  unfold Gen.rateMean
+  field_simp
+
+theorem rates_count_per_part : Gen.ratesCountPerPart = true := by
+  rfl
+
+/-- the time parts are analysed with the same conversion method and minimal residence as the whole -/
+theorem split_forwards_settings : Gen.splitForwardsSettings = true := by
+  rfl
+
+theorem jump_distances_in_simulation_cell : Gen.jumpDistancesInSimulationCell = true := by
+  rfl
+
 end G.C05Gen
